@@ -154,6 +154,8 @@ Theorem report_heartbeat_uses_the_guard now n i hb :
     end.
 Proof. reflexivity. Qed.
 
+Definition g_catchup_new_gc (gc cgc : N) : N := N.max gc cgc.
+Definition g_catchup_new_max (mx cmax : N) : N := N.max mx cmax.
 Theorem catchup_uses_the_guards n i kvs mx gc :
   reset_node_state_if_update n i kvs mx gc =
   let should_init := match last_heartbeat_if_deleted (nd_cs n) i with None => true | Some _ => false end in
@@ -167,10 +169,73 @@ Theorem catchup_uses_the_guards n i kvs mx gc :
         let f := fd_get_or_create (nd_fd n) i in
         let '(c1, evs) := set_many c kvs [] in
         let kept := filter (fun e => in_keys (fst e) kvs) (c_kvs c1) in
-        let c2 := mkCopy (c_hb c1) (N.max gc (c_gc c1)) (N.max mx (c_max c1)) kept in
+        let c2 := mkCopy (c_hb c1) (g_catchup_new_gc gc (c_gc c1)) (g_catchup_new_max mx (c_max c1)) kept in
         if lex_lt (monotonic_property c) (monotonic_property c2)
         then Ok (with_fd (with_cs n (mkCluster (nm_insert i c2 (cs_nodes cs)) (cs_gcn cs))) f,
                  map (fun e => (i, fst e, snd e)) evs)
         else Panic
   end.
 Proof. reflexivity. Qed.
+Theorem tie_catchup_new_gc : forall gc cgc mx cmax, rs_catchup_new_gc gc cgc mx cmax = g_catchup_new_gc gc cgc.
+Proof. intros; unfold rs_catchup_new_gc, g_catchup_new_gc; lia. Qed.
+Theorem tie_catchup_new_max : forall gc cgc mx cmax, rs_catchup_new_max gc cgc mx cmax = g_catchup_new_max mx cmax.
+Proof. intros; unfold rs_catchup_new_max, g_catchup_new_max; lia. Qed.
+
+(* ---------- tombstone GC of one copy (state.rs:398-419) ---------- *)
+Definition g_gc_keep (now t grace : Z) : bool := (now <? t + grace)%Z.
+Definition g_gc_watermark (ver acc : N) : N := N.max ver acc.
+Theorem gc_uses_the_guards now grace c :
+  (forall v, gc_collectable now grace v =
+     match time_of_start_scheduled_for_deletion (v_st v) with None => false | Some t => negb (g_gc_keep now t grace) end) /\
+  gc_keys_marked_for_deletion now grace c =
+    let removed := filter (fun kv => gc_collectable now grace (snd kv)) (c_kvs c) in
+    mkCopy (c_hb c) (fold_left (fun g kv => g_gc_watermark (v_ver (snd kv)) g) removed (c_gc c)) (c_max c)
+           (filter (fun kv => negb (gc_collectable now grace (snd kv))) (c_kvs c)).
+Proof. split; reflexivity. Qed.
+Theorem tie_gc_keep :
+  (forall now t grace, rs_gc_keep now t grace = g_gc_keep now t grace) \/
+  (forall now t grace, rs_gc_keep now t grace = negb (g_gc_keep now t grace)).
+Proof. tie_tac ltac:(unfold rs_gc_keep, g_gc_keep). Qed.
+Theorem tie_gc_watermark : forall ver acc cgc, rs_gc_watermark ver acc cgc = g_gc_watermark ver acc.
+Proof. intros; unfold rs_gc_watermark, g_gc_watermark; lia. Qed.
+
+(* ---------- NodeState::set_versioned_value (state.rs:446-475) and the key-value loop of apply_delta
+   (state.rs:219-238) ---------- *)
+Definition g_svv_max (ver cmax : N) : N := N.max ver cmax.
+Definition g_svv_older (old ver : N) : bool := (ver <=? old)%N.
+Definition g_apply_known (ver cmax : N) : bool := (ver <=? cmax)%N.
+Definition g_apply_collected (ver cgc : N) : bool := (ver <=? cgc)%N.
+Theorem set_versioned_value_is_the_tree c k v :
+  set_versioned_value c k v =
+  let mx := g_svv_max (v_ver v) (c_max c) in
+  let ev := if is_deleted v then [] else [(k, v_val v)] in
+  match kget k (c_kvs c) with
+  | Some old =>
+      if g_svv_older (v_ver old) (v_ver v)
+      then (mkCopy (c_hb c) (c_gc c) mx (c_kvs c), [])
+      else (mkCopy (c_hb c) (c_gc c) mx (kinsert k v (c_kvs c)), ev)
+  | None => (mkCopy (c_hb c) (c_gc c) mx (kinsert k v (c_kvs c)), ev)
+  end.
+Proof. reflexivity. Qed.
+Theorem apply_kv_is_the_tree now current_max acc m :
+  apply_kv now current_max acc m =
+  let '(c, evs) := acc in
+  if g_apply_known (m_ver m) current_max then acc
+  else if mscheduled (m_st m) && g_apply_collected (m_ver m) (c_gc c) then acc
+  else
+    let '(c', ev) := set_versioned_value c (m_key m) (mkVV (m_val m) (m_ver m) (into_status (m_st m) now)) in
+    (c', evs ++ ev).
+Proof. reflexivity. Qed.
+Theorem tie_svv_max : forall ver cmax, rs_svv_max ver cmax = g_svv_max ver cmax.
+Proof. intros; unfold rs_svv_max, g_svv_max; lia. Qed.
+Theorem tie_svv_older :
+  (forall old ver, rs_svv_older old ver = g_svv_older old ver) \/ (forall old ver, rs_svv_older old ver = negb (g_svv_older old ver)).
+Proof. tie_tac ltac:(unfold rs_svv_older, g_svv_older). Qed.
+Theorem tie_apply_known :
+  (forall ver cmax cgc, rs_apply_known ver cmax cgc = g_apply_known ver cmax) \/
+  (forall ver cmax cgc, rs_apply_known ver cmax cgc = negb (g_apply_known ver cmax)).
+Proof. tie_tac ltac:(unfold rs_apply_known, g_apply_known). Qed.
+Theorem tie_apply_collected :
+  (forall ver cmax cgc, rs_apply_collected ver cmax cgc = g_apply_collected ver cgc) \/
+  (forall ver cmax cgc, rs_apply_collected ver cmax cgc = negb (g_apply_collected ver cgc)).
+Proof. tie_tac ltac:(unfold rs_apply_collected, g_apply_collected). Qed.
